@@ -245,7 +245,7 @@ class Ex:
     def cover(self, label):
         """Reachability cover (anti-vacuity): the path condition at this point must be satisfiable."""
         self.reached.add(label)
-        if len(self.covers.setdefault(label, [])) < 4:
+        if len(self.covers.setdefault(label, [])) < 48:
             self.covers[label].append(list(self.pc))
 
     def feasible(self, extra) -> bool:
